@@ -165,6 +165,26 @@ def _directed_pair_page_in(scratch: Path) -> list[Path]:
     return [f]
 
 
+# a page-out written over the page file that an earlier incarnation of the same key left behind (page-in leaves the file in place,
+# purge does not remove it), then paged in again: the bytes must be those of the current incarnation
+MC_REUSE = ('---- MODULE MC ----\nEXTENDS Shm\nMC_Size == [a |-> 1, b |-> 1, c |-> 2]\nVARIABLE oldf\n'
+            'SpecH == Init /\\ oldf = [k \\in Key |-> None] /\\ [][Next /\\ oldf\' = IF last\'[1] = "OutHalf1" /\\ last\'[3] = "ok" '
+            'THEN [oldf EXCEPT ![last\'[2]] = file[last\'[2]]] ELSE oldf]_<<vars, oldf>>\n'
+            'NoReuse == ~(last[1] = "InDone" /\\ last[3] = "ok" /\\ oldf[last[2]] # None /\\ oldf[last[2]] # file[last[2]])\n====\n')
+
+
+def _directed_file_reuse(scratch: Path) -> list[Path]:
+    cfg = tlc.cfg_text(spec="SpecH", constants=consts(Cap="2", MaxClock="12", MaxReaders="1"), invariants=["NoReuse"])
+    d = tlc.stage(scratch, "directed_reuse", ["Shm", "ShmAcct"], {"MC.tla": MC_REUSE, "MC.cfg": cfg})
+    r = tlc.check(d, "MC", workers=6, timeout=1500, light=False, heap="6g", deadlock=False)
+    if "NoReuse" not in r.violated:
+        raise MachineryError("TLC found no behaviour paging a key in after a page-out over a left-behind file:\n" + r.out[-1500:])
+    trace = tlc.parse_error_trace(r.out)
+    f = scratch / "sim_directed_reuse.json"
+    f.write_text(json.dumps([[lab, {k: v for k, v in st.items() if k != "oldf"}] for lab, st in trace], default=_jsonable))
+    return [f]
+
+
 def _replay_files(files: list[Path], sizes: dict, cap: int, out: Path) -> list[dict]:
     p = subprocess.run([sys.executable, "-W", "ignore", "-c", REPLAY_SNIPPET, _listfile([str(f) for f in files]),
                         json.dumps(sizes), str(cap), str(out)], cwd=ROOT, stdout=subprocess.PIPE, stderr=subprocess.STDOUT,
@@ -266,6 +286,7 @@ def run_engine(ctx: Ctx) -> dict:
     # directed behaviour: TLC's shortest path to two successful page-ins of different keys in a row (the replay runs them as
     # concurrent jobs whose reads interleave chunk by chunk, as the 4-thread reader pool may)
     sims += [(f, {"a": 1, "b": 1, "c": 2}, 2) for f in _directed_pair_page_in(scratch)]
+    sims += [(f, {"a": 1, "b": 1, "c": 2}, 2) for f in _directed_file_reuse(scratch)]
     # a store configured with more capacity than /dev/shm offers works with what there is (the model's Cap)
     sims += [(f, KEYS, CAP) for f in _simulate(scratch, "trimmed", consts(MaxClock="30"), max(num // 4, 50), 30, ctx.seed + 16)]
     sims += [(f, KEYS, CAP) for f in _simulate(scratch, "longname", consts(MaxClock="30"), max(num // 4, 50), 30, ctx.seed + 15)]
